@@ -56,10 +56,10 @@ def noneTree (none : α) : T α := if Generated.treeNoneIsLeaf then .leaf none e
 
 /-! ## strictly sorted keys -/
 
+/-- strictly increasing: every key is smaller than every later key. -/
 def keysSorted : List Key → Bool
   | [] => true
-  | [_] => true
-  | a :: b :: rest => a.lt b && keysSorted (b :: rest)
+  | a :: rest => rest.all (fun b => a.lt b) && keysSorted rest
 
 mutual
 /-- well-formed: every dict's keys are strictly increasing (so: distinct and of one type). -/
